@@ -187,8 +187,12 @@ __CPROVER_ensures(INV(self->_sender) && (RET == 0 || RET == 1))
 __CPROVER_ensures(RET ? (g.holder == H_NONE && g.released && g.recv_len == 0 && self->_sender == kNotLocked) : (g.holder == H_ME && !g.released && (g.recv_len > 0 || g.n >= 1)))
 __CPROVER_ensures(self->_sender == (RET ? kNotLocked : SENDER_OF(g.n)))
 '''
-    job('TryUnlockAwait', B['TryUnlockAwait'], COMMON + contract_tu + '{' + c + '}\nvoid harness(void) { ghost_havoc(); POOL_INIT(); Mutex* m; int r = TryUnlockAwait(m); if (r) VF_CANARY("released"); else VF_CANARY("waiters present"); }\n',
-        'TryUnlockAwait', [], canaries=2, expect=[r'postcondition', r'G_unlock'])
+    # BatchingPossible (proved in its own job below) is available to the body as the extracted helper it is, for both values of Batching
+    c_bp = rw('BatchingPossible').rewrite(B['BatchingPossible'].text)
+    for batching in (0, 1):
+        job('TryUnlockAwait.batch%d' % batching, [B['TryUnlockAwait'], B['BatchingPossible']],
+            COMMON + '#define Batching %d\nstatic int BatchingPossible(Mutex* self) {' % batching + c_bp + '}\n' + contract_tu + '{' + c + '}\nvoid harness(void) { ghost_havoc(); POOL_INIT(); Mutex* m; int r = TryUnlockAwait(m); if (r) VF_CANARY("released"); else VF_CANARY("waiters present"); }\n',
+            'TryUnlockAwait', [], canaries=2, expect=[r'postcondition', r'G_unlock'])
     # ---- GetHead: FIFO reversal over the ghost pool -----------------------------------------------------------------------------------
     NEXT = [(r'(\b\w+)->next\s*=(?!=)\s*([^;]+);', r'NODE_SET_NEXT(\1, \2);', 0), (r'(\b\w+)->next\b(?!\s*=[^=])', r'NODE_NEXT(\1)', 0)]
     POOLACC = r'''
@@ -364,5 +368,9 @@ void h1(void) { void* s; g_try = g_try_sh = 0; await_ready(s); VF_CANARY("end");
 void h2(void) { void* s; void* p; g_await = g_await_sh = 0; await_suspend(s, p); VF_CANARY("end"); }
 """ % (cr, cs)
     out.append(Job('coro_mutex/LockAwaiter.await_ready', props, src, 'h1', enforce='await_ready', replace=['TryLockAwait', 'TryLockSharedAwait'], funcs=[b_lr], expect=[r'postcondition'], meta={'fn': 'LockAwaiter::await_ready'}))
+    out[-1].props = props + ['C15']
     out.append(Job('coro_mutex/LockAwaiter.await_suspend', props, src, 'h2', enforce='await_suspend', replace=['AwaitLock', 'AwaitLockShared'], funcs=[b_ls], expect=[r'postcondition'], meta={'fn': 'LockAwaiter::await_suspend'}))
+    out[-1].props = props + ['C15']
+    if getattr(ctx, 'prop', None) == 'C15':
+        out = [j for j in out if 'LockAwaiter' in j.name]      # the awaiter shared with SharedMutex
     return out
